@@ -54,6 +54,8 @@ type dcase struct {
 	ids    []ulid.ULID // id table (block ids and source ids)
 	groups []grp
 	blocks []bmeta
+	// repeated: some source list names an id more than once
+	repeated bool
 }
 
 func (c dcase) render() string {
